@@ -241,6 +241,7 @@ struct condition_variable {
         if (!woken) cv.waiters.erase(::std::remove(cv.waiters.begin(), cv.waiters.end(), f.id), cv.waiters.end());
         f.notified = false;
         lk.mutex()->lock();
+        if (!woken) f.last_timeout_step = ::vrt::rt().res.steps;      // the wait gave up: its mutex is re-acquired at this step
         return woken;
     }
     void wait(::std::unique_lock<mutex>& lk) { wait_impl(lk, false); }
